@@ -184,6 +184,44 @@ func passPred(calls []ssa.CallInstruction) func(ssa.Instruction) bool {
 	return func(in ssa.Instruction) bool { return set[in] }
 }
 
+// requireFollows: after every call matching a, every path to the end of the enclosing loop iteration
+// (the loop header) and to every return in rets passes a call matching b.
+func (c *Check) requireFollows(rule, inst string, fn *ssa.Function, rets []*ssa.Return, a, b func(ssa.CallInstruction) bool, detail string) {
+	n := 0
+	for _, call := range callsIn(fn, false) {
+		if !a(call) {
+			continue
+		}
+		n++
+		pred := func(in ssa.Instruction) bool {
+			x, ok := in.(ssa.CallInstruction)
+			return ok && b(x)
+		}
+		ok := true
+		why := detail
+		var targets []ssa.Instruction
+		if h := loopHeaderOf(call.Block()); h != nil {
+			targets = append(targets, h.Instrs[len(h.Instrs)-1])
+		}
+		for _, r := range rets {
+			targets = append(targets, r)
+		}
+		for _, t := range targets {
+			if !blockReaches(call.Block(), t.Block()) && call.Block() != t.Block() {
+				continue
+			}
+			if !mustPassFrom(fn, call, t, pred) {
+				ok = false
+				why = detail + " (" + c.L.Pos(t.Pos()) + " is reachable from the first call without the second)"
+			}
+		}
+		c.Ob(rule, inst, call.Pos(), ok, why)
+	}
+	if n == 0 {
+		c.Ob(rule, inst, fn.Pos(), false, detail+" (first call not found in "+fnName(fn)+")")
+	}
+}
+
 // requireOnPaths: every return in rets must pass through one of the calls matching `match` in fn.
 func (c *Check) requireOnPaths(rule, inst string, fn *ssa.Function, rets []*ssa.Return, match func(ssa.CallInstruction) bool, detail string) []ssa.CallInstruction {
 	var m []ssa.CallInstruction
@@ -333,22 +371,38 @@ func checkC04(c *Check) {
 // refineOnBidClosed: OnPauseGroup call site inside deployment keeper OnBidClosed has no group guard; accept {GroupOpen}
 // for that site iff every production caller of deployment OnBidClosed is dominated by lease.State == LeaseActive.
 func (c *Check) refineOnBidClosed(kinds map[string]*recKind, sa *stateAssign) map[int64]bool {
+	return c.refineOnBidClosedQ(kinds, sa, false)
+}
+
+func (c *Check) refineOnBidClosedQ(kinds map[string]*recKind, sa *stateAssign, quiet bool) map[int64]bool {
 	l := c.L
 	obc := l.Func("x/deployment/keeper", "Keeper", "OnBidClosed")
 	leaseActive, _ := constantInt2(l, "x/market/types", "LeaseActive")
 	okAll := true
 	n := 0
+	fires := c.hookFiring()
+	stalePos, staleBy := obc.Pos(), ""
 	for _, call := range l.callSitesOf(obc) {
 		n++
 		if !hasStateFact(factsAt(call.Block()), "eq", "GetLease(", leaseActive) {
 			okAll = false
 		}
+		// the "lease active => group open" argument needs the lease fact to be current: no call that can
+		// run the escrow hooks (which close leases and move groups to insufficient_funds) may come first
+		for _, e := range callsIn(call.Parent(), false) {
+			if fires(e) && reachableFrom(e.(ssa.Instruction), call.(ssa.Instruction)) {
+				stalePos, staleBy = call.Pos(), calleeMethod(e)
+			}
+		}
 	}
-	c.Ob("R1", "deployment OnBidClosed (pauses group without its own guard) is only called for an active lease", obc.Pos(), okAll && n > 0, "group is paused from an unguarded path: caller does not establish lease.State == LeaseActive")
+	if !quiet {
+		c.Ob("R1", "deployment OnBidClosed (pauses group without its own guard) runs before any escrow-hook-firing call of its caller", stalePos, staleBy == "", "group is paused on a lease-active fact that predates "+staleBy+", whose hooks may already have moved the group to insufficient_funds/closed")
+		c.Ob("R1", "deployment OnBidClosed (pauses group without its own guard) is only called for an active lease", obc.Pos(), okAll && n > 0, "group is paused from an unguarded path: caller does not establish lease.State == LeaseActive")
+	}
 	union := map[int64]bool{}
 	for _, call := range l.callSitesOf(sa.fn) {
 		caller := call.Parent()
-		if caller == obc && okAll {
+		if caller == obc && okAll && staleBy == "" {
 			union[sa.rk.byName["GroupOpen"]] = true
 			continue
 		}
@@ -533,6 +587,10 @@ func (c *Check) handlerEffects(kinds map[string]*recKind) {
 			gi, _ := constantInt2(l, dk, "GroupInsufficientFunds")
 			c.Ob("R2", "account-closed hook: groups end closed or insufficient_funds", call.Pos(), cs != nil && len(cs) == 2 && cs[gc] && cs[gi], "group state argument "+Sym(a[1]))
 		}
+		c.requireFollows("R2", "account-closed hook: every group closed by the hook is cascaded to the market", fn, rets,
+			func(x ssa.CallInstruction) bool { return callIs(x, "OnCloseGroup", "", "types.Group") },
+			func(x ssa.CallInstruction) bool { return callIs(x, "OnGroupClosed", "", "types.GroupID") },
+			"orders/bids/leases stay live under a group the hook closed")
 		c.requireOnPaths("R2", "account-closed hook: market cascade per group", fn, nil2(rets), func(x ssa.CallInstruction) bool { return callIs(x, "OnGroupClosed", "", "types.GroupID") }, "orders/bids/leases stay live under a closed deployment")
 	}
 	{
@@ -717,9 +775,9 @@ func isEscrowHookFiringDirect(call ssa.CallInstruction) bool {
 	return len(a) > 0 && strings.Contains(Sym(a[0]), "EscrowAccountForDeployment(")
 }
 
-func (c *Check) staleAcrossHooks(kinds map[string]*recKind) { c.staleAcrossHooksRule("R5", kinds) }
-
-func (c *Check) staleAcrossHooksRule(rule string, kinds map[string]*recKind) {
+// hookFiring: predicate "this call may run the escrow hooks" (a direct AccountClose/PaymentClose/... on the
+// escrow keeper, or a market/deployment keeper function that contains one).
+func (c *Check) hookFiring() func(ssa.CallInstruction) bool {
 	l := c.L
 	// functions (market/deployment keepers) that directly contain a hook-firing escrow call
 	hf := map[*ssa.Function]bool{}
@@ -736,7 +794,7 @@ func (c *Check) staleAcrossHooksRule(rule string, kinds map[string]*recKind) {
 			}
 		}
 	}
-	fires := func(call ssa.CallInstruction) bool {
+	return func(call ssa.CallInstruction) bool {
 		if isEscrowHookFiringDirect(call) {
 			return true
 		}
@@ -747,6 +805,13 @@ func (c *Check) staleAcrossHooksRule(rule string, kinds map[string]*recKind) {
 		}
 		return false
 	}
+}
+
+func (c *Check) staleAcrossHooks(kinds map[string]*recKind) { c.staleAcrossHooksRule("R5", kinds) }
+
+func (c *Check) staleAcrossHooksRule(rule string, kinds map[string]*recKind) {
+	l := c.L
+	fires := c.hookFiring()
 	var subjects []*ssa.Function
 	for _, rel := range []string{"x/market/handler", "x/deployment/handler"} {
 		for _, fn := range l.pkgFuncs(rel) {
